@@ -182,7 +182,16 @@ def order_invariance(ctx, B, cfg, cap):
             if len(np.unique(codes[k])) < 2:
                 continue
             keys = [codes[k]] + [codes[q] for q in range(len(codes) - 1, -1, -1) if q != k]
-            orders.append(("argument %d fastest" % k, np.lexsort(keys)))
+            pk = np.lexsort(keys)
+            orders.append(("argument %d fastest" % k, pk))
+            # ... and every inner run (all values of argument k for one setting of the other arguments) twice in a row: a cache keyed on the OTHER arguments that a
+            # neighbouring call of the run overwrites shows when the run comes round again
+            if len(codes) > 1:
+                other = np.stack([codes[q][pk] for q in range(len(codes)) if q != k], axis=1)
+                brk = np.nonzero(np.any(other[1:] != other[:-1], axis=1))[0] + 1
+                runs = np.split(pk, brk)
+                if len(runs) * 2 <= 4 * p.n and max(len(r_) for r_ in runs) > 1:
+                    orders.append(("each run of argument %d twice" % k, np.concatenate([np.concatenate([r_, r_]) for r_ in runs])))
         orders.append(("each tuple twice in a row", double))
         for what, perm in orders:
             q = c03.Plan(p.name, p.kind, p.sig, [(c[perm] if isinstance(c, np.ndarray) else [c[i] for i in perm]) for c in p.cols], p.op)
